@@ -1054,6 +1054,10 @@ func provablyNonNilError(v ssa.Value) bool {
 			if g, ok := x.X.(*ssa.Global); ok && strings.HasPrefix(g.Name(), "Err") {
 				return true
 			}
+			// an unexported sentinel: every store of its package puts errors.New / fmt.Errorf there
+			if g, ok := x.X.(*ssa.Global); ok && sentinelErrGlobal(g) {
+				return true
+			}
 		}
 	}
 	return false
@@ -1666,4 +1670,50 @@ func flagEdgesImplying(fn *ssa.Function, base func(*ssa.BasicBlock, int) bool) f
 		}
 	}
 	return func(b *ssa.BasicBlock, k int) bool { return set[ek{b, k}] }
+}
+
+var sentinelMemo = map[*ssa.Global]bool{}
+
+// sentinelErrGlobal: a package-level variable of type error that is assigned only in its own
+// package, at least once, and only with fresh errors (errors.New / fmt.Errorf).
+func sentinelErrGlobal(g *ssa.Global) bool {
+	if v, ok := sentinelMemo[g]; ok {
+		return v
+	}
+	sentinelMemo[g] = false
+	if g.Pkg == nil || g.Object() == nil || g.Object().Exported() {
+		return false
+	}
+	n := 0
+	ok := true
+	for _, fn := range fnsOfProg[g.Pkg.Prog] {
+		pk := fn.Pkg
+		if pk == nil && fn.Parent() != nil {
+			pk = fn.Parent().Pkg
+		}
+		if pk != g.Pkg {
+			continue
+		}
+		for _, b := range fn.Blocks {
+			for _, in := range b.Instrs {
+				st, isSt := in.(*ssa.Store)
+				if !isSt || st.Addr != ssa.Value(g) {
+					continue
+				}
+				n++
+				cl, isCall := strip(st.Val).(*ssa.Call)
+				if !isCall || cl.Common().StaticCallee() == nil {
+					ok = false
+					continue
+				}
+				switch cl.Common().StaticCallee().String() {
+				case "fmt.Errorf", "errors.New":
+				default:
+					ok = false
+				}
+			}
+		}
+	}
+	sentinelMemo[g] = ok && n > 0
+	return sentinelMemo[g]
 }
